@@ -5,7 +5,7 @@ import gen_ren
 from props import c17
 
 PROP = "C18"
-MODULES = ["NeatviVerif.Props.C18", "NeatviVerif.Props.C18b"]
+MODULES = ["NeatviVerif.Props.C18", "NeatviVerif.Props.C18b", "NeatviVerif.Props.C18c"]
 MODE = "ren18"
 
 def bidi_cases(rng, count, maxlen):
